@@ -853,26 +853,26 @@ func runCheck(id, tier, work string) int {
 		"violations":  len(sigs),
 		"assumptions": in.Assumptions,
 		"coverage": map[string]interface{}{
-			"evaluations":          ev,
-			"distinct_nontrivial":  len(nt),
-			"rule":                 in.Rule,
-			"samples":              samples,
-			"labels":               labels,
-			"excluded":             excluded,
-			"known_finding_hits":   knownHits,
-			"known_findings_listed": listed,
+			"evaluations":                        ev,
+			"distinct_nontrivial":                len(nt),
+			"rule":                               in.Rule,
+			"samples":                            samples,
+			"labels":                             labels,
+			"excluded":                           excluded,
+			"known_finding_hits":                 knownHits,
+			"known_findings_listed":              listed,
 			"unlisted_crashes_attributed_to_C01": crashNotes,
-			"shards":               shards,
-			"restarts":             restarts,
-			"requested_cases":      total,
-			"fixed_witnesses_replayed": fixedChecked,
-			"fuzz":                 fuzzEv,
-			"exhaustive":           len(exhNotes) > 0 && len(infraMsgs) == 0 && !timedOut,
-			"exhaustive_note":      strings.Join(uniq(exhNotes), "; "),
-			"exhaustive_evaluations": exhEval,
-			"generator_warnings":   warn,
-			"notes":                notes,
-			"tolerance":            "geometric comparisons use |d| <= 1e-3 px + 1e-5*|expected| unless the rule says otherwise",
+			"shards":                             shards,
+			"restarts":                           restarts,
+			"requested_cases":                    total,
+			"fixed_witnesses_replayed":           fixedChecked,
+			"fuzz":                               fuzzEv,
+			"exhaustive":                         len(exhNotes) > 0 && len(infraMsgs) == 0 && !timedOut,
+			"exhaustive_note":                    strings.Join(uniq(exhNotes), "; "),
+			"exhaustive_evaluations":             exhEval,
+			"generator_warnings":                 warn,
+			"notes":                              notes,
+			"tolerance":                          "geometric comparisons use |d| <= 1e-3 px + 1e-5*|expected| unless the rule says otherwise",
 		},
 	}
 	if in.Assumptions == nil {
